@@ -691,6 +691,37 @@ def check_even_integer_shortcuts(run, ix):
         raise AnalysisError('F-R9: no large-argument shortcut found in the *pi reduction')
 
 
+# --------------------------------------------------------------------------- F-R10
+def check_quarter_fold(run, ix):
+    """F-R10.  sinpi / cospi evaluate sin or cos of pi*r after x = n/2 + r.  With r in [0, 1/2) the cosine is taken
+    right next to its zero for r close to 1/2, where the 2^-53 rounding of pi*r is divided by a tiny function
+    value (fp.cospi(0.5 - 2**-30) was off by 1e-7).  The remainder must be folded into |r| <= 1/4: after the
+    division by 1/2 there is a step  `if r > 1/4: r -= 1/2; n += 1`."""
+    m2 = ix.module(MATH2)
+    helpers = [f for f in m2.funcs.values() if f.parent is None and
+               any(isinstance(c, ast.Call) and norm(c.func) == 'divmod' and len(c.args) == 2 and
+                   norm(c.args[1]) == '0.5' for c in _walk_own(f.node))]
+    if not helpers:
+        raise AnalysisError('F-R10: reduction by divmod(x, 0.5) not found')
+    for f in helpers:
+        dm = [x for x in _walk_own(f.node) if isinstance(x, ast.Assign) and isinstance(x.value, ast.Call) and
+              norm(x.value.func) == 'divmod' and isinstance(x.targets[0], ast.Tuple)]
+        nname, rname = [e.id for e in dm[0].targets[0].elts]
+        ok = False
+        for st in _walk_own(f.node):
+            if isinstance(st, ast.If) and isinstance(st.test, ast.Compare) and norm(st.test.left) == rname and \
+                    isinstance(st.test.ops[0], (ast.Gt, ast.GtE)) and norm(st.test.comparators[0]) == '0.25':
+                body = [norm(b) for b in st.body]
+                if '%s -= 0.5' % rname in body and '%s += 1' % nname in body:
+                    ok = True
+        if ok:
+            run.ok('F-R10', '%s folds the remainder into |r| <= 1/4' % f.qualname)
+        else:
+            run.fail(F('F-R10', MATH2, f.qualname, dm[0], 'the remainder of the division by 1/2 is used as it is (0 <= r < '
+                       '1/2): for r near 1/2 the cosine is evaluated next to its zero and the result loses its relative '
+                       'accuracy (up to 1e-7 at distance 2^-30 below a zero)'))
+
+
 # --------------------------------------------------------------------------- F-R7
 def check_no_fallthrough(run, ix):
     """A function of the fp layer that returns a value on some path returns (or raises) on EVERY path:
@@ -857,6 +888,8 @@ def run(run, ix, tier):
     nslots = check_fp_table(run, ix)
     check_no_fallthrough(run, ix)
     check_even_integer_shortcuts(run, ix)
+    run.rule('F-R10', floor=1, desc='*pi reduction folds the remainder into |r| <= 1/4')
+    check_quarter_fold(run, ix)
     check_amplification(run, ix)
     nk = check_no_mp_numbers(run, ix)
     run.stats['math2_bindings'] = len(binds)
